@@ -169,16 +169,16 @@ def replay_behaviour(bid, acts, cls, fam, nslots=2):
 
 
 def _worker(args):
-    chunk, base = args
+    chunk, base, nslots = args
     out = []
     for k, acts in enumerate(chunk):
         for ci, cls in enumerate(("H", "DH", "SC")):
-            out += replay_behaviour(f"b{base + k}", acts, cls, FAMS[(base + k + ci) % len(FAMS)])
+            out += replay_behaviour(f"b{base + k}", acts, cls, FAMS[(base + k + ci) % len(FAMS)], nslots=nslots)
     return out
 
 
 BUD = {"quick": {"Depth": 4, "NSlots": 2, "behaviours": 1500},
-       "thorough": {"Depth": 5, "NSlots": 3, "behaviours": 60000}}
+       "thorough": {"Depth": 5, "NSlots": 3, "behaviours": 20000}}
 
 
 def enumerate_behaviours(consts):
@@ -219,7 +219,7 @@ def run(tier, seed_):
     jobs = common.NCPU
     recs = []
     with ProcessPoolExecutor(max_workers=jobs) as ex:
-        for part in ex.map(_worker, [(behs[i::jobs], i * 1000030) for i in range(jobs) if behs[i::jobs]]):
+        for part in ex.map(_worker, [(behs[i::jobs], i * 1000030, b["NSlots"]) for i in range(jobs) if behs[i::jobs]]):
             recs += part
     # TraceNets needs a uniform slot sequence length
     log(f"[C07] {len(behs)} behaviours x 3 classes replayed: {len(recs)} steps ({t():.0f}s)")
